@@ -118,7 +118,7 @@ theorem popc_ushiftRight (w : BitVec 64) (bi : Nat) (hbi : bi < 64) :
 /-- `trees::find_close(words, len, p)` = the matching close by the left-to-right scan over the first
 `len` bits, `none` for out-of-range / close / unmatched, for every `|ws| = ⌈len/64⌉`, `len < 2^31`,
 and any bits above `len` in the final word. -/
-theorem freeFindClose_eq (ws : List (BitVec 64)) (len p : Nat) (hw : ws.length = (len + 63) / 64)
+theorem freeFindClose_eq (ws : List (BitVec 64)) (len p : Nat) (hw : (len + 63) / 64 ≤ ws.length)
     (hlen : len < 2 ^ 31) :
     freeFindClose ws.toArray len p = BP.findClose (bitsOf ws len) p := by
   unfold freeFindClose BP.findClose
@@ -197,8 +197,8 @@ theorem freeFindClose_eq (ws : List (BitVec 64)) (len p : Nat) (hw : ws.length =
             rw [hA'l, hfull]
             congr 1 <;> omega
           · -- partial final word: nothing follows
-            have hlast : ws.length ≤ p / 64 + 1 := by unfold vbits at hfull; split at hfull <;> omega
-            rw [fcWordLoop_out ws len _ _ _ hlast, List.drop_of_length_le (by omega)]
+            have hlast : (p / 64 + 1) * 64 ≥ len := by unfold vbits at hfull; split at hfull <;> omega
+            rw [fcWordLoop_beyond ws len _ _ _ hlast, List.drop_of_length_le (by omega)]
             rfl
         -- any hit in the invalid part of the word is at or beyond `len`
         have hloc : ∀ l, scanClose (seg w (p % 64 + 1 + (vbits len (p / 64) - (p % 64 + 1))) (64 - vbits len (p / 64)))
